@@ -29,6 +29,7 @@ theorem ready_stable {s s' : St} (a : Actor) (hs : step s a = some s') (q : Seq)
   | stop t => simp only [step] at hs; split at hs <;> cases hs; simpa [setLoc] using hr
   | pollAll t d => simp only [step] at hs; split at hs <;> cases hs; simpa [setLoc] using hr
   | peer q' e v => simp only [step] at hs; split at hs <;> cases hs; simpa [doPeer] using hr
+  | peerDup q' e v => simp only [step] at hs; split at hs <;> cases hs; simpa [doPeer] using hr
   | peerEof => simp only [step] at hs; split at hs <;> cases hs; exact hr
   | tick d => simp only [step, Option.some.injEq] at hs; subst hs; exact hr
 
@@ -52,6 +53,7 @@ theorem popper_some_stable {s s' : St} (a : Actor) (hs : step s a = some s') (q 
   | stop t => simp only [step] at hs; split at hs <;> cases hs; simpa [setLoc] using hp
   | pollAll t d => simp only [step] at hs; split at hs <;> cases hs; simpa [setLoc] using hp
   | peer q' e v => simp only [step] at hs; split at hs <;> cases hs; simpa [doPeer] using hp
+  | peerDup q' e v => simp only [step] at hs; split at hs <;> cases hs; simpa [doPeer] using hp
   | peerEof => simp only [step] at hs; split at hs <;> cases hs; exact hp
   | tick d => simp only [step, Option.some.injEq] at hs; subst hs; exact hp
 
@@ -88,6 +90,7 @@ theorem ready_new {s s' : St} (hI : InvS s) (a : Actor) (hs : step s a = some s'
   | stop t => simp only [step] at hs; split at hs <;> cases hs; simp [setLoc, hr] at hr'
   | pollAll t d => simp only [step] at hs; split at hs <;> cases hs; simp [setLoc, hr] at hr'
   | peer q' e v => simp only [step] at hs; split at hs <;> cases hs; simp [doPeer, hr] at hr'
+  | peerDup q' e v => simp only [step] at hs; split at hs <;> cases hs; simp [doPeer, hr] at hr'
   | peerEof => simp only [step] at hs; split at hs <;> cases hs; simp [hr] at hr'
   | tick d => simp only [step, Option.some.injEq] at hs; subst hs; simp [hr] at hr'
 
@@ -105,7 +108,7 @@ theorem ready_popped {s : St} (h : Reachable s) (q : Seq) (hr : (s.cells q).read
 /-- the actor is thread `t` or the environment -/
 def Actor.byOrEnv (t : Tid) : Actor → Prop
   | .call u _ | .bg u | .stop u | .pollAll u _ | .run u => u = t
-  | .peer _ _ _ | .peerEof | .tick _ => True
+  | .peer _ _ _ | .peerDup _ _ _ | .peerEof | .tick _ => True
 
 /-- every callback popped so far was popped by `t` -/
 def OnlyPopper (t : Tid) (s : St) : Prop := ∀ q u, s.popper q = some u → u = t
@@ -133,6 +136,7 @@ theorem onlyPopper_step {s s' : St} {t : Tid} (a : Actor) (ha : a.byOrEnv t) (h 
   | stop t' => simp only [step] at hs; split at hs <;> cases hs; simpa [setLoc] using h q u
   | pollAll t' d => simp only [step] at hs; split at hs <;> cases hs; simpa [setLoc] using h q u
   | peer q' e v => simp only [step] at hs; split at hs <;> cases hs; simpa [doPeer] using h q u
+  | peerDup q' e v => simp only [step] at hs; split at hs <;> cases hs; simpa [doPeer] using h q u
   | peerEof => simp only [step] at hs; split at hs <;> cases hs; exact h q u
   | tick d => simp only [step, Option.some.injEq] at hs; subst hs; exact h q u
 
